@@ -15,6 +15,13 @@ use crate::handlers::{self, merge_conflict};
 use crate::paint::Painter;
 use crate::style::DecorationStyle;
 
+#[derive(Clone, Copy, Debug, PartialEq, Eq)]
+pub enum BinaryPatch {
+    No,
+    BetweenParts,
+    InPart,
+}
+
 #[derive(Clone, Debug, PartialEq, Eq)]
 pub enum State {
     CommitMeta,                                             // In commit metadata section
@@ -111,8 +118,8 @@ pub struct StateMachine<'a> {
     pub handled_diff_header_header_line_file_pair: Option<(String, String)>,
     pub blame_key_colors: HashMap<String, String>,
     pub minus_line_counter: AmbiguousDiffMinusCounter,
-    // Inside a `GIT binary patch` block of a diff header.
-    pub in_binary_patch: bool,
+    // Position inside a `GIT binary patch` block of a diff header.
+    pub in_binary_patch: BinaryPatch,
 }
 
 pub fn delta<I>(lines: ByteLines<I>, writer: &mut dyn Write, config: &Config) -> std::io::Result<()>
@@ -141,7 +148,7 @@ impl<'a> StateMachine<'a> {
             config,
             blame_key_colors: HashMap::new(),
             minus_line_counter: AmbiguousDiffMinusCounter::not_needed(),
-            in_binary_patch: false,
+            in_binary_patch: BinaryPatch::No,
         }
     }
 
@@ -304,19 +311,35 @@ impl<'a> StateMachine<'a> {
             "+++ ",
             "Binary files ",
         ];
-        if ["GIT binary patch", "literal ", "delta "]
-            .iter()
-            .any(|s| self.line.starts_with(s))
-        {
-            self.in_binary_patch = true;
-            return Ok(true);
+        // A binary patch: `GIT binary patch`, then one or two parts, each a `literal <size>` or
+        // `delta <size>` line followed by lines of encoded data and an empty line.
+        let starts_part = |line: &str| {
+            ["literal ", "delta "].iter().any(|s| {
+                line.strip_prefix(s).is_some_and(|size| {
+                    !size.is_empty() && size.bytes().all(|b| b.is_ascii_digit())
+                })
+            })
+        };
+        match self.in_binary_patch {
+            _ if self.line == "GIT binary patch" => {
+                self.in_binary_patch = BinaryPatch::BetweenParts;
+                return Ok(true);
+            }
+            BinaryPatch::BetweenParts if starts_part(&self.line) => {
+                self.in_binary_patch = BinaryPatch::InPart;
+                return Ok(true);
+            }
+            BinaryPatch::InPart => {
+                if self.line.is_empty() {
+                    self.in_binary_patch = BinaryPatch::BetweenParts;
+                }
+                return Ok(true);
+            }
+            _ => self.in_binary_patch = BinaryPatch::No,
         }
-        if self.in_binary_patch {
-            // (encoded data, ended by an empty line)
-            self.in_binary_patch = !self.line.is_empty();
-            return Ok(true);
-        }
-        if self.line.is_empty() || METADATA.iter().any(|s| self.line.starts_with(s)) {
+        // (An empty line is not file metadata: it is what `git log` writes between the last file
+        // of a commit and the next commit.)
+        if METADATA.iter().any(|s| self.line.starts_with(s)) {
             return Ok(true);
         }
         self.handle_pending_line_with_diff_name()?;
